@@ -88,7 +88,13 @@ func randomTopo(rng *rand.Rand, w *hx.World, ids []int, lateCreator int) []int {
 func (h *hist) feed(name string, id int, order []int, store hg.Store, batch int, modelled bool) *runObs {
 	w := h.w
 	nd := w.NewBareNode(id, h.genesis, store)
-	_ = modelled
+	small := strings.HasPrefix(name, "badger-small")
+	if small {
+		// a cache smaller than the DAG: the node is not replayed on the model (memory-only fields of evicted events are
+		// gone by construction); a consensus pass that fails below the supported cache window ends the run (statistic)
+		nd.NoDump = true
+		modelled = false
+	}
 	passes := func() error {
 		if err := nd.Hg.DivideRounds(); err != nil {
 			return err
@@ -116,6 +122,12 @@ func (h *hist) feed(name string, id int, order []int, store hg.Store, batch int,
 				fmt.Fprintf(w.Out, "P %d\n", id)
 				err = passes()
 			}
+		}
+		if err != nil && small {
+			h.actions["dag-small-cache-below-window"]++
+			fmt.Fprintf(w.Out, "# run %s stopped after %d of %d events: %v\n", name, i, len(order), err)
+			order = order[:i]
+			break
 		}
 		if err != nil {
 			w.Violation("C03", "replay-insertion-failed", fmt.Sprintf("run=%s eid=%d err=%v", name, eid, err))
@@ -303,6 +315,20 @@ func (h *hist) dagrun(thorough bool) {
 			h.compare(ref, o, "store-type")
 			bs.Close()
 			h.actions["dag-badger-runs"]++
+		}
+		os.RemoveAll(dir)
+	}
+	// Badger store with a cache SMALLER than the DAG (evicted events are re-read from the database: only what is persisted
+	// survives); compared as a prefix when a pass failed below the supported cache window
+	if len(ids) >= 150 {
+		cs := 100
+		dir, _ := os.MkdirTemp("", "verif-dagrun")
+		bs, err := hg.NewBadgerStore(cs, dir, false, hx.QuietLogger())
+		if err == nil {
+			o := h.feed(fmt.Sprintf("badger-small-cache%d", cs), nid(), ids, bs, 1, false)
+			h.compare(ref, o, "store-cache-size")
+			bs.Close()
+			h.actions["dag-badger-small-cache-runs"]++
 		}
 		os.RemoveAll(dir)
 	}
